@@ -121,7 +121,7 @@ def _seeds_for(pid):
             m = json.load(open(mp))
         except ValueError:
             continue
-        if pid in m.get("detected_by", []):
+        if pid in m.get("detected_by", []) or pid in m.get("ever_detected_by", []):
             out.append(m["seed"])
     return out
 
